@@ -11,7 +11,7 @@ Driver for the constant-literal slice of C05.  One request per line (strings: `.
   `evalc <c11|cpp14> <str>`   lex + parse + evaluate  → `int <ctype> <value>` | `flt <ctype> <hex bits>` | `err:<kind>`
   `evalpy <str>`              Python expression       → `int <v>` | `bool <0|1>` | `float <hex bits>` | `err:<kind>`
   `repr <hex bits64>`      `pyFloatRepr`              → `<str>`
-  `short <hex bits64>`     `shortestDigits?` found?   → `1` | `0`
+  `short <hex bits64>`     `shortestDigits?` found and `reprReadsBack` → `1` | `0`
   `isexact <int>`          `isExact`                  → `1` | `0`
   `div <n> <d>`            `pyTrueDiv`                → `<hex bits>` | `err:<kind>`
   `rne <32|64> <n> <d>`    `roundTo` of the rational `n / d ≥ 0` → `<hex bits>`
@@ -134,7 +134,7 @@ def answer (line : String) : String :=
     match parseHex h with
     | some b =>
       match ofBits binary64 b with
-      | .fin _ m E => if m = 0 ∨ (shortestDigits? m E).isSome then "1" else "0"
+      | .fin _ m E => if (m = 0 ∨ (shortestDigits? m E).isSome) ∧ reprReadsBack m E then "1" else "0"
       | _ => "1"
     | none => "bad-op"
   | ["isexact", x] =>
